@@ -58,6 +58,8 @@ mod connection;
 mod handle;
 mod negotiation;
 mod types;
+#[cfg(feature = "verif")]
+pub mod verif_hooks;
 
 #[cfg(test)]
 mod tests;
